@@ -283,11 +283,6 @@ struct Driver {
   }
 
   // ---------------------------------------------------------------- observation
-  struct Observed {
-    std::vector<std::vector<ID>> all;      // get_representative_cycles()
-    std::vector<std::vector<ID>> perbar;   // get_representative_cycle(bar) for the oracle's bars, in their order
-  };
-
   // turns a returned cycle into sorted positions; interp 0: entries are ids, 1: entries are positions
   bool to_positions(const std::vector<ID>& cyc, int interp, const std::unordered_map<ID, int>& id2pos, std::vector<int>& out,
                     std::string& why) const {
